@@ -1,8 +1,10 @@
 (* C04 — reading IMSC/TTML XML follows TTML timing semantics.
    Only statements, `exact`, and Print Assumptions.  M = Model/ImscTime.v, Model/ImscTiming.v, Model/ImscStyles.v (transcription of
-   ttconv/imsc/utils.py, attributes.py, elements.py), S = Spec/TtmlTimingSpec.v, Spec/TtmlStyleSpec.v.  All statements are for
+   ttconv/imsc/utils.py, attributes.py, elements.py), S = Spec/TtmlTimingSpec.v, Spec/TtmlStyleSpec.v,
+   Spec/TtmlColorSpec.v (colour values: M = Model/ImscWrite.v parse_color, transcription of ttconv/utils.py).  All statements are for
    unbounded inputs (every string, every attribute list, every XML tree, every parsing context, every style table). *)
 From TT Require Import Base.Prelude Base.ImscXml Model.ImscTime Model.ImscStyles Model.ImscTiming Spec.TtmlTimingSpec.
+From TT Require Import Model.ImscWrite Spec.TtmlColorSpec Proofs.C04.Color.
 From TT Require Import Proofs.C04.TimeSyntax Proofs.C04.TimeReject Proofs.C04.Interval Proofs.C04.Total Proofs.C04.Params Proofs.C04.BadAttr Proofs.C04.Styles Proofs.C04.Flatten.
 From Coq Require Import QArith.
 Local Open Scope Z_scope.
@@ -123,6 +125,36 @@ Proof. exact flatten_order_independent. Qed.
 (* [resolve] on the model's table is compared with Spec/TtmlStyleSpec.v style_set on the XML (attribute strings, well-formedness table)
    on generated style graphs: any declaration order, depth up to 6, diamonds, conflicting properties. *)
 
+(* ---- colour values (ttconv/utils.py parse_color, after the repair "parse_color accepted trailing characters, components above 255
+   and non-ASCII digits") -------------------------------------------------------------------------------------------------------------
+   The strings the reader accepts as a colour are exactly the colour expressions of Spec/TtmlColorSpec.v - the TTML2 <color> syntax
+   (named colour | #rrggbb | #rrggbbaa | rgb(r,g,b) | rgba(r,g,b,a), decimal components at most 255) with the documented tolerances
+   (letter case of names; white space around decimal components, except before the first comma of rgba()) - and the colour read is
+   the one the grammar denotes; every other string is rejected (ValueError: logged, attribute ignored). *)
+Theorem C04_color_accepted_iff : forall s c, parse_color s = Some c <-> color_expr s c.
+Proof. exact parse_color_iff. Qed.
+Theorem C04_color_rejected_iff : forall s, parse_color s = None <-> ~ exists c, color_expr s c.
+Proof. exact parse_color_rejects_iff. Qed.
+(* every accepted string denotes an RGBA8 colour: four components in [0, 255] *)
+Theorem C04_color_rgba8 : forall s c, parse_color s = Some c -> rgba8 c.
+Proof. exact parse_color_rgba8. Qed.
+(* every strict TTML2 <color> (no white space, names in lower case) is accepted with its denotation *)
+Theorem C04_color_ttml_accepted : forall s c, ttml_color s c -> parse_color s = Some c.
+Proof. exact ttml_color_accepted. Qed.
+(* the leniencies the repair removed, each for all strings of the shape: "#" followed by other than six or eight characters; an rgb() /
+   rgba() whose components have the shape of the grammar and one of which exceeds 255; any string with a character outside ASCII
+   other than the KELVIN SIGN (digits and white space outside ASCII in particular) *)
+Theorem C04_color_hex_length : forall h, length h <> 6%nat -> length h <> 8%nat -> parse_color (35 :: h) = None.
+Proof. exact hex_length_rejected. Qed.
+Theorem C04_color_rgb_above_255 : forall r g b, comp_shape r = true -> comp_shape g = true -> comp_shape b = true ->
+  255 < comp_value r \/ 255 < comp_value g \/ 255 < comp_value b -> parse_color (yield (ARgb r g b)) = None.
+Proof. exact rgb_above_255_rejected. Qed.
+Theorem C04_color_rgba_above_255 : forall r g b a, comp_shape r = true -> c_post r = [] -> comp_shape g = true -> comp_shape b = true -> comp_shape a = true ->
+  255 < comp_value r \/ 255 < comp_value g \/ 255 < comp_value b \/ 255 < comp_value a -> parse_color (yield (ARgba r g b a)) = None.
+Proof. exact rgba_above_255_rejected. Qed.
+Theorem C04_color_characters : forall s c, parse_color s = Some c -> forallb plain_char s = true.
+Proof. exact parse_color_chars. Qed.
+
 (* non-vacuity: "00:00:01:12" at 25 fps is 1.48 s; <div begin="1s"><p dur="2s"/><p end="5s"/></div> ends at 6 s; a seq container whose
    first child never ends is read, with that child only *)
 Example C04_example_clock_frames :
@@ -155,6 +187,20 @@ Example C04_example_flatten :
   end.
 Proof. exact flatten_example. Qed.
 
+(* colours: "rgba( 1,2 , 3,\t255 )" is a colour expression (and denotes (1, 2, 3, 255)); "#ff0000x", "rgb(1,2,256)", "rgb(1,2,3) " and
+   "rgba(1 ,2,3,4)" are none; the hypotheses of C04_color_rgb_above_255 are satisfiable *)
+Example C04_example_color_tolerant :
+  color_expr [114; 103; 98; 97; 40; 32; 49; 44; 50; 32; 44; 32; 51; 44; 9; 50; 53; 53; 32; 41] (1, 2, 3, 255).
+Proof. apply parse_color_iff. reflexivity. Qed.
+Example C04_example_color_rejected :
+  parse_color [35; 102; 102; 48; 48; 48; 48; 120] = None /\ parse_color [114; 103; 98; 40; 49; 44; 50; 44; 50; 53; 54; 41] = None /\
+  parse_color [114; 103; 98; 40; 49; 44; 50; 44; 51; 41; 32] = None /\ parse_color [114; 103; 98; 97; 40; 49; 32; 44; 50; 44; 51; 44; 52; 41] = None /\
+  parse_color [114; 103; 98; 40; 1633; 44; 50; 44; 51; 41] = None.
+Proof. repeat split; reflexivity. Qed.
+Example C04_example_color_above_255 :
+  let c := mkComp [] [50; 53; 54] [32] in comp_shape c = true /\ 255 < comp_value c.
+Proof. split; reflexivity. Qed.
+
 Print Assumptions C04_time_syntax.  Print Assumptions C04_time_not_in_grammar.  Print Assumptions C04_time_reject.  Print Assumptions C04_time_reject_malformed.
 Print Assumptions C04_interval.  Print Assumptions C04_process_total.  Print Assumptions C04_rates_positive.  Print Assumptions C04_read_total.
 Print Assumptions C04_frame_rate.  Print Assumptions C04_tick_rate.  Print Assumptions C04_frame_rate_given.
@@ -162,3 +208,5 @@ Print Assumptions C04_bad_attr_ignored_time.  Print Assumptions C04_bad_attr_ign
 Print Assumptions C04_bad_attr_in_style_element_ignored.  Print Assumptions C04_bad_attr_ignored_ruby.  Print Assumptions C04_bad_attr_ignored_style.  Print Assumptions C04_bad_value_in_style_ignored.
 Print Assumptions C04_styles_inline.  Print Assumptions C04_styles_set_if_absent.  Print Assumptions C04_styles_referential.
 Print Assumptions C04_styles_flatten.  Print Assumptions C04_styles_flatten_order_independent.
+Print Assumptions C04_color_accepted_iff.  Print Assumptions C04_color_rejected_iff.  Print Assumptions C04_color_rgba8.  Print Assumptions C04_color_ttml_accepted.
+Print Assumptions C04_color_hex_length.  Print Assumptions C04_color_rgb_above_255.  Print Assumptions C04_color_rgba_above_255.  Print Assumptions C04_color_characters.
